@@ -143,6 +143,7 @@ class Ctx:
         self.arrlen = {}
         self.noinline = []          # extra regexes of callees that must stay opaque calls
         self.reader = False         # reader mode: applications of nom parser values become events
+        self.open_loops = False     # accept loops without a recognisable trip count (body recorded once)
         self.napply = 0
         self.log_calls = None       # regex: calls whose (name, args, site) are appended to self.calls
         self.calls = []
@@ -875,7 +876,7 @@ class Interp:
             c = strip_casts(cond)
             if not (isinstance(c, tuple) and c[0] == "bin" and c[1] == "Lt" and isinstance(c[2], tuple)
                     and c[2][0] == "lc" and c[2][1] == lid):
-                if not self.ctx.reader:
+                if not (self.ctx.reader or self.ctx.open_loops):
                     raise Undecided("while loop at bb%d of %s: condition %s is not `induction variable < bound`"
                                     % (h, b.id, show(cond)))
                 # reader mode: an open-ended loop (e.g. `while !is_last`); body events are recorded once
